@@ -1,5 +1,5 @@
 (** Facts about whole runs ([SolveEquation], Run.v): induction over the periods. *)
-From Coq Require Import List String Bool Arith Lia PrimFloat Permutation.
+From Coq Require Import List String Bool Arith Lia PrimFloat Floats Permutation.
 From SFC.Base Require Import Res Str Sorting Expr.
 From SFC.Solve Require Import Types Maps Init Step Run InitProofs StepProofs.
 Import ListNotations.
@@ -561,3 +561,17 @@ Proof.
   unfold run. destruct (init p) as [[ts0 exo']|]; simpl; [|constructor].
   apply steps_sweeps_bound. constructor.
 Qed.
+
+(** decidable form of [half_exact] *)
+Definition half_exactb (T : nat) : bool :=
+  forallb (fun i => Leibniz.eqb ((float_of_nat i + float_of_nat i) / 2)%float (float_of_nat i)) (seq 0 (S T)).
+
+Lemma half_exactb_sound T : half_exactb T = true -> half_exact T.
+Proof.
+  unfold half_exactb, half_exact. rewrite forallb_forall. intros H i Hi.
+  apply Leibniz.eqb_spec. apply H. apply in_seq. lia.
+Qed.
+
+Lemma half_exact_mono T T' : T' <= T -> half_exact T -> half_exact T'.
+Proof. intros Hle H i Hi. apply H. lia. Qed.
+
